@@ -243,6 +243,58 @@ fn candidate(prop: &str, r: &mut StdRng, pool: &mut Pool) -> (usize, Vec<Value>)
             };
             (n, vec![op])
         }
+        "C17" => {
+            // one call with an argument outside its domain: the documented behaviour is a panic, in every build
+            let n = pick_n(r, 0, 9);
+            let f0 = pool.table(n, r);
+            let f1 = pool.table(n, r);
+            let bad_i = match r.gen_range(0..5) {
+                0 => n + r.gen_range(0..4),
+                1 => n + r.gen_range(0..200),
+                2 => 64 * r.gen_range(1..5) + r.gen_range(0..n + 2),
+                3 => [usize::MAX, usize::MAX - 1, 1usize << 32, 1usize << 63, (1usize << 32) + n][r.gen_range(0..5)],
+                _ => r.gen_range(n..n + 71),
+            };
+            let d = dom(n);
+            let bad_m = match r.gen_range(0..4) {
+                0 => d + r.gen_range(0..4),
+                1 => d * (1 << r.gen_range(0..8)) + r.gen_range(0..d),
+                2 => [usize::MAX, 1usize << 32, 1usize << 63][r.gen_range(0..3)],
+                _ => d + r.gen_range(0..200),
+            };
+            let good = if n > 0 { r.gen_range(0..n) } else { 0 };
+            let f = if r.gen() { "copy" } else { "inplace" };
+            let dd = if f == "copy" { 2 } else { 0 };
+            let mut m = serde_json::Map::new();
+            let mut put = |k: &str, v: Value| {
+                m.insert(k.to_string(), v);
+            };
+            let which = r.gen_range(0..11);
+            match which {
+                0 => { put("op", json!("nth_var")); put("d", json!(2)); put("n", json!(n)); }
+                1 => { put("op", json!("flip")); put("f", json!(f)); put("a", json!(0)); put("d", json!(dd)); }
+                2 => { put("op", json!("swapadj")); put("f", json!(f)); put("a", json!(0)); put("d", json!(dd)); }
+                3 => { put("op", json!("swap")); put("f", json!(f)); put("a", json!(0)); put("d", json!(dd)); put("j", json!(good)); }
+                4 => { put("op", json!("cofactors")); put("a", json!(0)); put("d0", json!(2)); put("d1", json!(3)); }
+                5 => { put("op", json!("fromcof")); put("a", json!(0)); put("b", json!(1)); put("d", json!(2)); }
+                6 => { put("op", json!("decomp")); put("a", json!(0)); }
+                7 => { put("op", json!("unate")); put("a", json!(0)); put("f", json!(if r.gen() { "pos" } else { "neg" })); }
+                8 => { put("op", json!("value")); put("a", json!(0)); put("f", json!(if r.gen() { "value" } else { "get_bit" })); }
+                _ => { put("op", json!("setbit")); put("a", json!(0)); put("f", json!(["set", "unset", "val1", "val0"][r.gen_range(0..4)])); }
+            }
+            if which >= 8 {
+                crate::exec::put_usize(&mut m, "m", bad_m);
+            } else if which == 3 && n > 0 && r.gen() {
+                // the bad index second
+                m.insert("i".into(), json!(good));
+                crate::exec::put_usize(&mut m, "j", bad_i);
+            } else if which == 2 {
+                crate::exec::put_usize(&mut m, "i", if r.gen() && n > 0 { n - 1 } else { bad_i });
+            } else {
+                crate::exec::put_usize(&mut m, "i", bad_i);
+            }
+            (n, vec![load(0, n, &f0), load(1, n, &f1), Value::Object(m)])
+        }
         "C04" | "C05" => {
             let kind = ["n", "n", "p", "npn"][r.gen_range(0..4)];
             let hi = if prop == "C05" { 7 } else if kind == "n" { 8 } else if kind == "p" { 6 } else { 5 };
@@ -252,6 +304,10 @@ fn candidate(prop: &str, r: &mut StdRng, pool: &mut Pool) -> (usize, Vec<Value>)
         }
         _ => panic!("HARNESS: no hunt for {}", prop),
     }
+}
+
+thread_local! {
+    static C17_MODE: std::cell::Cell<bool> = std::cell::Cell::new(false);
 }
 
 fn slot_table(ev: &Value, s: usize, before: Option<&naive::Tab>) -> Option<(naive::Tab, bool)> {
@@ -279,6 +335,9 @@ fn slot_table(ev: &Value, s: usize, before: Option<&naive::Tab>) -> Option<(naiv
 /// Does the event look wrong to the naive oracle?  (true = forward it to the specification)
 fn suspicious(op: &Value, ev: &Value, slots: &[Option<naive::Tab>]) -> bool {
     let name = op["op"].as_str().unwrap();
+    if C17_MODE.with(|c| c.get()) {
+        return ev["out"] != "panic";
+    }
     if name == "from_hex" {
         let n = op["n"].as_u64().unwrap() as usize;
         let s: Vec<u8> = op["s"].as_array().unwrap().iter().map(|x| x.as_u64().unwrap() as u8).collect();
@@ -576,6 +635,7 @@ pub fn hunt(prop: &str, seed: u64, budget_ms: u64) -> HuntResult {
     if prop == "C02" || prop == "C10" {
         return hunt_histories(prop, seed, budget_ms);
     }
+    C17_MODE.with(|c| c.set(prop == "C17"));
     let mut r = rng(seed, 7777);
     let mut pool = Pool { tables: HashMap::new() };
     let t0 = Instant::now();
